@@ -123,7 +123,9 @@ def alGet {β} (k : Nat) : List (Nat × β) → Option β
 def alSet {β} (k : Nat) (v : β) : List (Nat × β) → List (Nat × β)
   | [] => [(k, v)]
   | (k', v') :: rest => if k' = k then (k', v) :: rest else (k', v') :: alSet k v rest
-def alDel {β} (k : Nat) (l : List (Nat × β)) : List (Nat × β) := l.filter (fun kv => kv.1 ≠ k)
+def alDel {β} (k : Nat) : List (Nat × β) → List (Nat × β)
+  | [] => []
+  | (k', v) :: rest => if k' = k then alDel k rest else (k', v) :: alDel k rest
 def alHas {β} (k : Nat) (l : List (Nat × β)) : Bool := (alGet k l).isSome
 
 def sGet (k : Str) : List (Str × FillFn) → Option FillFn
@@ -154,36 +156,46 @@ def tick (env : Env) (e : Ev) : M Unit := do
 
 /-! ### provide bookkeeping (perfutil/provide.py) -/
 
+/-- a step of the bookkeeping: the exception it raises (if any) and the world at that point -/
+abbrev WStep := World → Option Err × World
+
 /-- `provide_cache.pop(provide_id)` (no default: KeyError when the entry is gone) -/
-def popProvideCache (pid : Nat) : M Unit := do
-  let w ← get
-  if alHas pid w.provideCache then set { w with provideCache := alDel pid w.provideCache }
-  else throw (.keyError "provide_cache.pop")
+def popProvideCacheW (pid : Nat) : WStep := fun w =>
+  if alHas pid w.provideCache then (none, { w with provideCache := alDel pid w.provideCache })
+  else (some (.keyError "provide_cache.pop"), w)
 
 /-- the loop of `unregister_provide_reference` over `list(provide_references.keys())` -/
-def unregisterLoop (rid : Nat) : List Nat → M Unit
-  | [] => pure ()
-  | p :: ps => do
-    let w ← get
+def unregisterLoopW (rid : Nat) : List Nat → WStep
+  | [], w => (none, w)
+  | p :: ps, w =>
     match alGet p w.provideRefs with
-    | none => throw (.keyError "provide_references")
+    | none => (some (.keyError "provide_references"), w)
     | some refs =>
-      if !refs.contains rid then unregisterLoop rid ps
-      else do
+      if !refs.contains rid then unregisterLoopW rid ps w
+      else
         let refs' := refs.filter (· ≠ rid)
-        set { w with provideRefs := alSet p refs' w.provideRefs }
+        let w1 : World := { w with provideRefs := alSet p refs' w.provideRefs }
         if refs'.isEmpty then
-          popProvideCache p
-          modify (fun w => { w with provideRefs := alDel p w.provideRefs })
-        unregisterLoop rid ps
+          match popProvideCacheW p w1 with
+          | (some e, w2) => (some e, w2)
+          | (none, w2) => unregisterLoopW rid ps { w2 with provideRefs := alDel p w2.provideRefs }
+        else unregisterLoopW rid ps w1
 
 /-- `unregister_provide_reference` -/
-def unregisterRef (rid : Nat) : M Unit := do
+def unregisterRefW (rid : Nat) : WStep := fun w =>
+  if !w.allRefIds.contains rid then (none, w)
+  else unregisterLoopW rid (w.provideRefs.map (·.1)) { w with allRefIds := w.allRefIds.filter (· ≠ rid) }
+
+/-- run a bookkeeping step inside the interpreter: the world is kept, the exception is raised -/
+def liftW (f : WStep) : M Unit := do
   let w ← get
-  if !w.allRefIds.contains rid then pure ()
-  else do
-    set { w with allRefIds := w.allRefIds.filter (· ≠ rid) }
-    unregisterLoop rid (w.provideRefs.map (·.1))
+  let r := f w
+  set r.2
+  match r.1 with
+  | some e => throw e
+  | none => pure ()
+
+def unregisterRef (rid : Nat) : M Unit := liftW (unregisterRefW rid)
 
 def provIdsOf (ctx : Ctx) : List Nat :=
   (injectKeysOf ctx).filterMap (fun kv => match kv.2 with | .provRef p => some p | _ => none)
@@ -196,20 +208,24 @@ def registerRefW (ctx : Ctx) (rid : Nat) (w : World) : World :=
       let refs := (alGet p w.provideRefs).getD []
       { w with provideRefs := alSet p (if refs.contains rid then refs else refs ++ [rid]) w.provideRefs }) w
 
+/-- what `managed_provide_cache` does on entry: the provider's own reference -/
+def holdSelfW (pid : Nat) (w : World) : World :=
+  let refs := (alGet pid w.provideRefs).getD []
+  { w with provideRefs := alSet pid (if refs.contains pid then refs else refs ++ [pid]) w.provideRefs }
+
 /-- `cache_cleanup` inside `managed_provide_cache` -/
-def cacheCleanup (pid : Nat) : M Unit := do
+def cacheCleanupW (pid : Nat) : WStep := fun w =>
   -- the provider drops the reference it held for the duration of its body
-  modify (fun w => match alGet pid w.provideRefs with
+  let w : World := match alGet pid w.provideRefs with
     | some refs => { w with provideRefs := alSet pid (refs.filter (· ≠ pid)) w.provideRefs }
-    | none => w)
-  let w ← get
+    | none => w
   match alGet pid w.provideRefs with
   | some refs =>
-    if refs.isEmpty then do
-      set { w with provideRefs := alDel pid w.provideRefs }
-      popProvideCache pid
-    else pure ()
-  | none => if alHas pid w.provideCache then popProvideCache pid else pure ()
+    if refs.isEmpty then popProvideCacheW pid { w with provideRefs := alDel pid w.provideRefs }
+    else (none, w)
+  | none => if alHas pid w.provideCache then popProvideCacheW pid w else (none, w)
+
+def cacheCleanup (pid : Nat) : M Unit := liftW (cacheCleanupW pid)
 
 def unregisterAll : List Nat → M Unit
   | [] => pure ()
@@ -377,9 +393,7 @@ mutual
         modify (fun w => { w with provideCache := alSet pid payload w.provideCache })
         -- managed_provide_cache: the provider holds a reference of its own while its body renders
         let before := (← get).allRefIds
-        modify (fun w =>
-          let refs := (alGet pid w.provideRefs).getD []
-          { w with provideRefs := alSet pid (if refs.contains pid then refs else refs ++ [pid]) w.provideRefs })
+        modify (holdSelfW pid)
         let out ← (try renderNodes env n body ctx'
           catch e => do
             provideFail pid before
